@@ -202,6 +202,7 @@ class Ctx:
         self.active = set()
         self.counters = {}
         self.fkeys = set()
+        self._obset = set()
         self.hook_impl_frames = {"algorithms::patience::Patience": "U"}
 
     def count(self, k, n=1):
@@ -215,7 +216,11 @@ class Ctx:
         self.findings.append((rule, fn, detail, msg, line, undecided))
 
     def ob(self, rule, ok, text):
-        self.obligations.append((rule, ok, text))
+        k = (rule, ok, text)
+        if k in self._obset:
+            return
+        self._obset.add(k)
+        self.obligations.append(k)
 
 
 def join_side(a, b):
@@ -381,6 +386,10 @@ SAME_SIDE = {
 
 ITEM = ("S", "Item", None, None, None)
 
+# DiffOp helpers that move BOTH index fields (see F5): their amount must be a both-sided length
+BOTH_INDEX_HELPERS = ("types::DiffOp::shift_left", "types::DiffOp::shift_right", "types::DiffOp::grow_left",
+                      "types::DiffOp::shrink_right")
+
 # parameters whose names carry no sort but whose role is fixed
 PARAM_SIG = {
     ("common::group_diff_ops", "n"): S(LEN),
@@ -409,6 +418,8 @@ class FnEval:
         self.ranged_sides = set()
         self.closure_nodes = {}
         self.hook_frame = F0
+        self.adjust = {}
+        self.adjust_line = {}
 
     # -------------------------------------------------------------- helpers
     def conflict_check(self, conflicts, where, line, rule="A5", sided=None):
@@ -543,6 +554,7 @@ class FnEval:
             # sinks are checked once, on the stabilised bindings
             self.report = True
             self.ret = None
+            self.adjust = {}
             last = self.ev(body)
         res = join(self.ret, last)
         return res if res is not None else ANY
@@ -806,9 +818,59 @@ class FnEval:
         self.store(e["l"], v, e["line"])
         return T()
 
+    def note_adjust(self, e, r):
+        """A8 bookkeeping: `old_range.start += <both-sided length>` must be mirrored on the new side before the two
+        ranges are used together."""
+        if not self.report or not (is_s(r) and r[1] == LEN and r[2] == "B"):
+            return
+        lhs = e["l"]
+        while isinstance(lhs, dict) and lhs.get("k") in ("droptemps", "cast") or (
+                isinstance(lhs, dict) and lhs.get("k") == "unary" and lhs.get("op") == "Deref"):
+            lhs = lhs["x"]
+        if not (isinstance(lhs, dict) and lhs.get("k") == "field" and lhs["name"] in ("start", "end")):
+            return
+        base = lhs["base"]
+        side = path_side(base)
+        if side is None:
+            return
+        key = (_place_name(base), lhs["name"])
+        self.adjust.setdefault(key, []).append((e["op"], _norm_src(_src_of(e["r"]))))
+        self.adjust_line[key] = e["line"]
+
+    def check_lockstep(self, e, arg_exprs):
+        """At a call that takes an old-side and a new-side range variable: both must carry the same adjustments."""
+        if not self.report or not self.adjust:
+            return
+        names = {}
+        for a in arg_exprs:
+            x = a
+            while isinstance(x, dict) and x.get("k") in ("droptemps", "addrof", "cast"):
+                x = x["x"]
+            if isinstance(x, dict) and x.get("k") == "mcall" and x["name"] == "clone":
+                x = x["recv"]
+            if isinstance(x, dict) and x.get("k") == "path" and x.get("res", {}).get("k") == "local":
+                nm = x["res"]["name"]
+                if (self.tys.get(x["res"]["id"]) or "").startswith("std::ops::Range<usize>") and name_side(nm):
+                    names[name_side(nm)] = nm
+        if set(names) != {"O", "N"}:
+            return
+        mirror = names["N"]
+        for fld in ("start", "end"):
+            a = self.adjust.get((names["O"], fld), [])
+            b = self.adjust.get((names["N"], fld), [])
+            ok = a == b
+            self.ctx.ob("A8", ok, "%s: `%s`: %s.%s adjusted by %s, %s.%s by %s" % (
+                self.fn.path, e.get("src", "")[:60], names["O"], fld, a, names["N"], fld, b))
+            if not ok:
+                self.ctx.finding("A8", self.fn, "lockstep:%s:%s" % (fld, _norm_src(e.get("src", ""))),
+                                 "`%s` uses %s and %s together, but %s.%s has been moved by %s and %s.%s by %s: the two ranges "
+                                 "are no longer stripped in lockstep" % (e.get("src", ""), names["O"], names["N"], names["O"], fld,
+                                                                         a or "nothing", names["N"], fld, b or "nothing"), e["line"])
+
     def ev_assignop(self, e):
         l = self.ev(e["l"])
         r = self.ev(e["r"])
+        self.note_adjust(e, r)
         op = e["op"].rstrip("=")
         conflicts = []
         v = self.arith(op, l, r, conflicts, e)
@@ -1011,6 +1073,18 @@ class FnEval:
         if l is None or r is None:
             return None
         if op in ("+", "-"):
+            if self.report and is_s(l) and is_s(r):
+                for a, b in ((l, r), (r, l)):
+                    if a[1] == POS and b[1] == LEN and a[2] in ("O", "N") and b[2] in ("O", "N") and a[2] != b[2]:
+                        self.ctx.ob("A7", False, "%s: `%s` adds a %s-side length to a %s-side position" % (
+                            self.fn.path, e.get("src", ""), _sn(b[2]), _sn(a[2])))
+                        self.ctx.finding("A7", self.fn, "cross-side-arith:%s" % _norm_src(e.get("src", "")),
+                                         "`%s` combines a %s-side position with a %s-side length (%s %s %s)" % (
+                                             e.get("src", ""), _sn(a[2]), _sn(b[2]), show(l), op, show(r)), e["line"])
+                        break
+                    if a[1] == POS and b[1] == LEN and a[2] in ("O", "N"):
+                        self.ctx.ob("A7", True, "%s: `%s`: %s %s %s" % (self.fn.path, e.get("src", ""), show(l), op, show(r)))
+                        break
             return add(l, r, op, conflicts)
         if op in ("*", "/", "%", "<<", ">>", "&", "|", "^"):
             if is_s(l) and is_s(r) and l[1] in (LEN, CONST, ZERO) and r[1] in (LEN, CONST, ZERO):
@@ -1254,6 +1328,19 @@ class FnEval:
         line = e["line"]
         params = g.hir["params"]
         is_hook_impl = bool(g.impl and g.impl.get("trait") == HOOK)
+        arg_exprs = ([e.get("recv")] if e.get("k") == "mcall" else []) + list(e.get("args", []))
+        self.check_lockstep(e, arg_exprs)
+        if self.report and g.path in BOTH_INDEX_HELPERS and len(allv) >= 2:
+            v = allv[1]
+            ok = is_s(v) and v[1] in (LEN, ZERO, CONST) and v[2] in ("B", None) and not (v[1] == LEN and v[2] is None and False)
+            if is_s(v) and v[1] == LEN and v[2] in ("O", "N"):
+                ok = False
+            ctx.ob("A9", ok, "%s: `%s` moves both indices by %s" % (self.fn.path, e.get("src", ""), show(v)))
+            if not ok:
+                ctx.finding("A9", self.fn, "one-sided-shift:%s" % _norm_src(e.get("src", "")),
+                            "`%s`: %s moves the old AND the new index of the op, but the amount %s is a length of one side "
+                            "only (only a length common to both sides may shift both indices)" % (
+                                e.get("src", ""), g.name, show(v)), line)
         # accessor rows (checked bodies, but a fixed result keeps callers precise)
         row = ACCESSORS.get(_strip_generics(g.path))
         # contract: parameters whose names declare a sort
@@ -1291,9 +1378,13 @@ class FnEval:
         same = SAME_SIDE.get(_strip_generics(g.path)) or SAME_SIDE.get(g.path)
         if same and self.report:
             ss = set()
+            arg_exprs = ([e.get("recv")] if e.get("k") == "mcall" else []) + list(e.get("args", []))
             for i in same:
                 if i < len(allv):
-                    ss |= sides_of(allv[i])
+                    got = sides_of(allv[i])
+                    if not got and i < len(arg_exprs) and path_side(arg_exprs[i]):
+                        got = {path_side(arg_exprs[i])}
+                    ss |= got
             ok = not ({"O", "N"} <= ss)
             ctx.ob("A3", ok, "%s: `%s` arguments %s share a side: %s" % (self.fn.path, e.get("src", ""), same, sorted(ss)))
             if not ok:
@@ -1517,7 +1608,7 @@ class FnEval:
         if isinstance(a0, tuple) and a0 and a0[0] == "C":
             el = a0[1] if a0[1] is not None else ANY
             if name == "len":
-                return S(LEN)
+                return S(LEN, path_side(recv) if recv is not None else None)
             if name in ("push", "push_back"):
                 if recv is not None and rest:
                     self.store(recv, C(rest[0]), line)
@@ -1630,6 +1721,26 @@ class FnEval:
         self.store(recv, M(nk, nv), line)
 
 
+def path_side(e, depth=0):
+    """Side declared by the names along an access path expression (locals, fields), or None."""
+    while isinstance(e, dict) and e.get("k") in ("droptemps", "addrof", "cast") or (
+            isinstance(e, dict) and e.get("k") == "unary" and e.get("op") == "Deref"):
+        e = e["x"]
+    if not isinstance(e, dict) or depth > 8:
+        return None
+    k = e.get("k")
+    if k == "path":
+        r = e.get("res", {})
+        return name_side(r.get("name")) if r.get("k") == "local" else None
+    if k == "field":
+        return name_side(e["name"]) or path_side(e["base"], depth + 1)
+    if k == "index":
+        return path_side(e["base"], depth + 1)
+    if k == "mcall" and e["name"] in ("as_ref", "as_mut", "iter", "clone", "borrow", "deref", "as_slice", "to_vec"):
+        return path_side(e["recv"], depth + 1)
+    return None
+
+
 ITER_METHODS = {"next", "rev", "zip", "map", "filter", "filter_map", "take_while", "count", "enumerate", "collect", "sum",
                 "scan", "chain", "flat_map", "step_by", "peekable", "peek", "skip", "take", "copied", "cloned", "all", "any",
                 "min", "max", "last", "nth", "for_each", "fold", "by_ref", "position", "find"}
@@ -1654,6 +1765,27 @@ def _unx(av, depth=0):
     if t == "A":
         return ("A", av[1], tuple((k, _unx(v, depth + 1)) for k, v in av[2]))
     return av
+
+
+def _place_name(e):
+    while isinstance(e, dict) and e.get("k") in ("droptemps", "addrof", "cast") or (
+            isinstance(e, dict) and e.get("k") == "unary" and e.get("op") == "Deref"):
+        e = e["x"]
+    if isinstance(e, dict) and e.get("k") == "path":
+        return e.get("res", {}).get("name", "?")
+    if isinstance(e, dict) and e.get("k") == "field":
+        return _place_name(e["base"]) + "." + e["name"]
+    return "?"
+
+
+def _src_of(e):
+    while isinstance(e, dict) and e.get("k") in ("droptemps", "addrof", "cast"):
+        e = e["x"]
+    if isinstance(e, dict):
+        if e.get("k") == "path":
+            return e.get("res", {}).get("name", "?")
+        return e.get("src", e.get("k", "?"))
+    return "?"
 
 
 def _rel(v):
@@ -1796,7 +1928,20 @@ def _acc_seq(side, ranged):
     return f
 
 
+def _acc_len_both(ev, allv, e):
+    return S(LEN, "B")
+
+
+def _acc_original_slices(ev, allv, e):
+    q = allv[0] if allv else ANY
+    side = q[1] if isinstance(q, tuple) and q and q[0] == "Q" else None
+    return C(T(S(LEN), Q(side, None, ITEM, False)))
+
+
 ACCESSORS = {
+    "algorithms::utils::common_prefix_len": _acc_len_both,
+    "algorithms::utils::common_suffix_len": _acc_len_both,
+    "text::inline::MultiLookup::<'bufs, 's, T>::get_original_slices": _acc_original_slices,
     "algorithms::utils::unique": _acc_unique,
     "algorithms::utils::UniqueItem::<'_, Idx>::original_index": _acc_original_index,
     "text::inline::MultiLookup::<'bufs, 's, T>::new": _acc_multilookup_new,
@@ -1866,7 +2011,12 @@ RULE_TEXT = {
           "new-side values at another (writer and reader agree)",
     "A6": "byte offsets and counts are not mixed: arguments of DiffableStr::slice and of str/[u8] range indexing are byte "
           "offsets accumulated from byte lengths",
-    "A7": "no comparison or min/max between positions of different sides or frames",
+    "A7": "no comparison, min/max or arithmetic between positions/lengths of different sides or frames (a new-side "
+          "position is never advanced by an old-side length)",
+    "A8": "ranges of the two sides are stripped in lockstep: whenever an old-side and a new-side range variable are passed "
+          "to one call, both have been moved by the same both-sided lengths at the same ends",
+    "A9": "DiffOp helpers that move both index fields (shift_left, shift_right, grow_left, shrink_right) are called only "
+          "with a length common to both sides, never with the length of one side",
 }
 
 
@@ -1894,3 +2044,5 @@ rule_A4 = make_rule("A4")
 rule_A5 = make_rule("A5")
 rule_A6 = make_rule("A6")
 rule_A7 = make_rule("A7")
+rule_A8 = make_rule("A8")
+rule_A9 = make_rule("A9")
